@@ -1,1 +1,231 @@
-//! blocksyncsim: see /verif/DESIGN.md
+//! blocksyncsim: deterministic simulation of lightning-block-sync (property C20).
+//!
+//! The real `SpvClient`, `ChainPoller` and `init::synchronize_listeners` run on top of a
+//! `BlockSource` that answers from a simulator-owned block tree, fails or lies at a chosen request
+//! index, and completes its futures after a chosen number of `Pending`s. Recording listeners are
+//! checked against a stack model of "the chain the listener believes in". See /verif/DESIGN.md §C20.
+
+pub mod exec;
+pub mod listener;
+pub mod sched;
+pub mod source;
+pub mod tree;
+pub mod world;
+
+use sched::Gen;
+use serde_json::Value;
+use simcore::{fnv_extend, Rng, RunOutcome, Sim, Tier};
+use source::FaultSpec;
+use world::{Action, Config, World};
+
+pub struct BlockSyncSim;
+
+pub const PROFILES: [&str; 3] = ["sync", "tiplies", "cancel"];
+
+fn run_walk(cfg: Config, rng: &mut Rng, seed: u64) -> RunOutcome {
+	let mut w = World::new(cfg.clone());
+	w.out.seed = seed;
+	let mut gen = Gen::new(&cfg);
+	let mut sched = rng.fork("schedule");
+	gen.setup(&mut sched);
+	let mut idle = 0;
+	while (w.trace.len() as u32) < cfg.gen.max_steps && !w.dead && idle < 64 {
+		let a = gen.next(&w, &mut sched);
+		if w.apply(&a) {
+			idle = 0;
+		} else {
+			idle += 1;
+		}
+	}
+	// close with a fault-free poll: whatever happened, the client must now reach the best tip
+	if !w.dead && w.client.is_some() {
+		w.apply(&Action::Poll { faults: vec![], pend: vec![], forget_stale: false, cancel_after: None });
+	}
+	w.finish()
+}
+
+fn with_fault(op: &Action, f: FaultSpec) -> Action {
+	match op {
+		Action::Poll { pend, forget_stale, .. } => Action::Poll {
+			faults: vec![f],
+			pend: pend.clone(),
+			forget_stale: *forget_stale,
+			cancel_after: None,
+		},
+		Action::InitSync { starts, forget_stale, pend, .. } => Action::InitSync {
+			starts: starts.clone(),
+			forget_stale: *forget_stale,
+			faults: vec![f],
+			pend: pend.clone(),
+		},
+		other => other.clone(),
+	}
+}
+
+/// Enumeration mode: one scenario (prefix, tip move, operation), then the operation is re-executed
+/// in a fresh world once for every request index k with a fault at k, followed by a fault-free poll.
+fn run_enumerate(cfg: Config, rng: &mut Rng, seed: u64) -> RunOutcome {
+	let mut w = World::new(cfg.clone());
+	w.out.seed = seed;
+	let mut gen = Gen::new(&cfg);
+	let mut sched = rng.fork("schedule");
+	gen.setup(&mut sched);
+	let prefix_len = sched.range(4, (cfg.gen.max_steps as u64 / 2).max(6)) as usize;
+	let mut idle = 0;
+	while (w.trace.len() < prefix_len || !gen.queue.is_empty() || w.client.is_none()) && !w.dead && idle < 64 {
+		let a = gen.next(&w, &mut sched);
+		if w.apply(&a) {
+			idle = 0;
+		} else {
+			idle += 1;
+		}
+	}
+	if w.dead || w.client.is_none() {
+		return w.finish();
+	}
+	// the move
+	let which = sched.below(3);
+	let a = gen.gen_move(&w, &mut sched, which);
+	w.apply(&a);
+	while let Some(a) = gen.queue.pop_front() {
+		w.apply(&a);
+	}
+	if w.dead {
+		return w.finish();
+	}
+	let prefix: Vec<Action> = w.trace.clone();
+	// the operation, first without faults to learn the number of requests
+	let op = if sched.chance(1, 4) { gen.gen_init(&w, &mut sched, false) } else { gen.gen_poll(&w, &mut sched, false) };
+	if !w.apply(&op) || w.dead {
+		return w.finish();
+	}
+	let n_req = w.last_op_requests;
+	w.out.bump("probe:enumerated_scenarios");
+	let names = cfg.gen.kinds.clone();
+	if names.is_empty() {
+		return w.finish();
+	}
+	let mut cases: Vec<(u32, String)> = Vec::new();
+	if (n_req as usize) * names.len() <= 48 {
+		for k in 0..n_req {
+			for nm in names.iter() {
+				cases.push((k, nm.clone()));
+			}
+		}
+		w.out.bump("probe:enumerated_all_indices_all_kinds");
+	} else {
+		let off = sched.below(names.len() as u64) as usize;
+		let ks: Vec<u32> = if n_req <= 48 {
+			w.out.bump("probe:enumerated_all_indices");
+			(0..n_req).collect()
+		} else {
+			(0..48).map(|_| sched.below(n_req as u64) as u32).collect()
+		};
+		for (i, k) in ks.into_iter().enumerate() {
+			cases.push((k, names[(i + off) % names.len()].clone()));
+		}
+	}
+	let mut hist = w.hist;
+	for (k, nm) in cases {
+		let kind = gen.kind_from_name(&nm, &w, &mut sched);
+		let f = FaultSpec { at: k, kind, arg: sched.next_u64() as u32 };
+		let mut sub = World::new(cfg.clone());
+		sub.quiet = true;
+		for a in prefix.iter() {
+			sub.apply(a);
+		}
+		sub.quiet = false;
+		sub.apply(&with_fault(&op, f));
+		if !sub.dead && sub.client.is_some() {
+			sub.apply(&Action::Poll { faults: vec![], pend: vec![], forget_stale: false, cancel_after: None });
+		}
+		hist = fnv_extend(hist, &sub.hist.to_le_bytes());
+		w.out.bump("enumerated_cases");
+		w.faults_fired += sub.faults_fired;
+		w.reorgs += sub.reorgs;
+		let mut so = sub.finish();
+		for (key, v) in so.counters.iter() {
+			if key != "pow_hashes" {
+				w.out.add(key, *v);
+			}
+		}
+		for e in so.harness_errors.drain(..) {
+			w.out.harness_errors.push(e);
+		}
+		if w.out.state_fps.len() < 4096 {
+			w.out.state_fps.extend(so.state_fps.iter().take(8));
+		}
+		if !so.violations.is_empty() && w.out.violations.is_empty() {
+			w.out.violations = so.violations.clone();
+			let mut o = w.finish();
+			o.replay = so.replay.clone();
+			o.history_fp = hist;
+			return o;
+		}
+	}
+	w.hist = hist;
+	w.finish()
+}
+
+impl Sim for BlockSyncSim {
+	fn name(&self) -> &'static str {
+		"blocksyncsim"
+	}
+
+	fn run(&self, profile: &str, seed: u64, tier: Tier) -> RunOutcome {
+		let mut rng = Rng::new(seed);
+		let cfg = sched::gen_config(profile, &mut rng, tier);
+		if cfg.gen.enumerate {
+			run_enumerate(cfg, &mut rng, seed)
+		} else {
+			run_walk(cfg, &mut rng, seed)
+		}
+	}
+
+	fn replay(&self, replay: &Value) -> RunOutcome {
+		let cfg: Config = match serde_json::from_value(replay["config"].clone()) {
+			Ok(c) => c,
+			Err(e) => {
+				let mut o = RunOutcome::default();
+				o.harness_errors.push(format!("bad replay config: {}", e));
+				return o;
+			},
+		};
+		let trace: Vec<Action> = match serde_json::from_value(replay["trace"].clone()) {
+			Ok(t) => t,
+			Err(e) => {
+				let mut o = RunOutcome::default();
+				o.harness_errors.push(format!("bad replay trace: {}", e));
+				return o;
+			},
+		};
+		let mut w = World::new(cfg);
+		for a in trace.iter() {
+			if w.dead {
+				break;
+			}
+			w.apply(a);
+		}
+		w.finish()
+	}
+
+	fn components(&self) -> (Vec<String>, Vec<String>) {
+		(
+			vec![
+				"lightning_block_sync::SpvClient (poll_best_tip, update_chain_tip)".into(),
+				"lightning_block_sync::ChainNotifier (find_difference_*, disconnect_blocks, connect_blocks)".into(),
+				"lightning_block_sync::HeaderCache".into(),
+				"lightning_block_sync::poll::ChainPoller + Validate (proof of work, block hash, merkle root, check_builds_on on Regtest)".into(),
+				"lightning_block_sync::init::{synchronize_listeners, validate_best_block_header} incl. MultiResultFuturePoller".into(),
+				"lightning::chain::BlockLocator".into(),
+				"bitcoin::block::Header::validate_pow / Block::check_merkle_root (real PoW at the regtest target)".into(),
+			],
+			vec![
+				"BlockSource (SimSource: answers from the simulator's block tree, injects faults per request index)".into(),
+				"chain::Listen (RecordingListener + fan-out)".into(),
+				"async executor (single-threaded busy poll, no tokio)".into(),
+				"block tree / miner (regtest-difficulty headers, coinbase-only or small blocks)".into(),
+			],
+		)
+	}
+}
